@@ -311,6 +311,8 @@ def item(draw) -> List[Any]:
         if cls == "unified":
             shape = draw(st.sampled_from(["request", "notification", "response", "error"]))
             w = draw(wire_message(shape))
+            if shape == "error" and draw(st.integers(0, 2)) == 0:
+                w["id"] = None  # the reply to a request whose id could not be read: "id": null must reach the peer
             if shape == "response" and not isinstance(w["result"], dict):
                 w["result"] = {"v": w["result"]}  # the unified class types results as objects
             return ["typed", "unified", w]
@@ -319,6 +321,8 @@ def item(draw) -> List[Any]:
         if draw(st.integers(0, 3)) == 0:
             return ["dict", draw(st.dictionaries(json_text, json_values(4), max_size=8))]
         w = draw(wire_message(draw(st.sampled_from(["request", "notification", "response", "error"]))))
+        if "error" in w and draw(st.integers(0, 3)) == 0:
+            w["id"] = None
         for k in draw(st.lists(st.sampled_from(["x-a", "x-b", "vendor", "é", "trace"]), max_size=4, unique=True)):
             w[k] = draw(st.one_of(json_text, st.integers(0, 9), st.just({"n": [None]})))
         return ["dict", w]
@@ -358,7 +362,8 @@ def job_hyp(col: Collector, seed: int, tier: str, shard: int, n: int) -> None:
 def job_positions(col: Collector, seed: int, tier: str) -> None:
     """every unserialisable kind at every position of a fixed 4-item sequence."""
     good = [["typed", "request", {"jsonrpc": "2.0", "id": 1, "method": "a", "params": {"t": "x\ny "}}], ["dict", {"jsonrpc": "2.0", "method": "b"}],
-            ["str", {"jsonrpc": "2.0", "id": "2", "result": {"n": None}}, False, True], ["typed", "unified", {"jsonrpc": "2.0", "id": 3, "error": {"code": -1, "message": "é"}}]]
+            ["str", {"jsonrpc": "2.0", "id": "2", "result": {"n": None}}, False, True], ["typed", "unified", {"jsonrpc": "2.0", "id": 3, "error": {"code": -1, "message": "é"}}],
+            ["typed", "unified", {"jsonrpc": "2.0", "id": None, "error": {"code": -32700, "message": "Parse error"}}]]
     for kind in BAD_KINDS[:6]:
         for pos in range(len(good) + 1):
             items = good[:pos] + [["bad", kind]] + good[pos:]
@@ -366,7 +371,7 @@ def job_positions(col: Collector, seed: int, tier: str) -> None:
             col.record(case, check(case))
         case = {"items": [["bad", kind], ["bad", kind]] + good}
         col.record(case, check(case))
-    col.exhaustive_parts.append("each of 6 unserialisable kinds at each of 5 positions of a fixed 4-item sequence")
+    col.exhaustive_parts.append("each of 6 unserialisable kinds at each of 6 positions of a fixed 5-item sequence (incl. a null-id error reply)")
 
 
 def job_real(col: Collector, seed: int, tier: str, shard: int, n: int) -> None:
